@@ -96,7 +96,11 @@ func (i ImportNames) TypeName(t types.Type) string {
 		}
 		return typ.Obj().Name()
 	default:
-		return t.String()
+		// An unnamed composite type (slice, array, map, chan, func, struct...): named types
+		// inside it are qualified the same way as above.
+		return types.TypeString(t, func(pkg *types.Package) string {
+			return i[pkg.Path()]
+		})
 	}
 }
 
